@@ -52,18 +52,115 @@ fn reset_event(cfg: &serde_json::Value) -> Event {
     }
 }
 
+/// Run a child; it is killed when its output file has not grown for HANG_SECS (every event is flushed; the slowest
+/// events, loads with their own 20 s limit, stay far below).
+/// Returns (exit code or None if it was killed by a signal, whether it was killed for hanging).
+fn run_child(exe: &std::path::Path, args: &[&str], progress_file: &str) -> std::io::Result<(Option<i32>, bool)> {
+    const HANG_SECS: u64 = 60;
+    let mut child = std::process::Command::new(exe).args(args).spawn()?;
+    let mut last_size = 0u64;
+    let mut last_change = std::time::Instant::now();
+    loop {
+        if let Some(st) = child.try_wait()? {
+            return Ok((st.code(), false));
+        }
+        std::thread::sleep(std::time::Duration::from_millis(20));
+        let size = std::fs::metadata(progress_file).map(|m| m.len()).unwrap_or(0);
+        if size != last_size {
+            last_size = size;
+            last_change = std::time::Instant::now();
+        } else if last_change.elapsed().as_secs() >= HANG_SECS {
+            let _ = child.kill();
+            let _ = child.wait();
+            return Ok((None, true));
+        }
+    }
+}
+
+/// Replay behaviours in child processes, so that an abort of the code under test (stack overflow, abort()) is data
+/// like a panic: the child that dies is restarted on the behaviour after the one that killed it, and the operation
+/// that did not return is logged with outcome "abort".
+fn replay(input: &str, output: &str, _style: IdStyle) -> std::io::Result<()> {
+    let behaviours: Vec<String> = std::io::BufReader::new(std::fs::File::open(input)?)
+        .lines()
+        .collect::<Result<Vec<_>, _>>()?
+        .into_iter()
+        .filter(|l| !l.trim().is_empty())
+        .collect();
+    let mut out = std::fs::File::create(output)?;
+    let exe = std::env::current_exe()?;
+    let tmp = format!("{}.child", output);
+    let mut start = 0usize;
+    let mut aborts = 0usize;
+    while start < behaviours.len() {
+        let _ = std::fs::remove_file(&tmp);
+        let (st, _) = run_child(&exe, &["replay-child", input, &tmp, &start.to_string(), "all"], &tmp)?;
+        if st == Some(2) || st == Some(101) {
+            return Err(std::io::Error::new(std::io::ErrorKind::Other, format!("harness child failed: {:?}", st)));
+        }
+        let text = std::fs::read_to_string(&tmp).unwrap_or_default();
+        if st == Some(0) {
+            out.write_all(text.as_bytes())?;
+            break;
+        }
+        // the child died: keep the behaviours it completed, find the one it died in
+        let lines: Vec<&str> = text.split_inclusive('\n').collect();
+        let resets: Vec<usize> = lines.iter().enumerate().filter(|(_, l)| l.starts_with("{\"ev\":\"Reset\"")).map(|(i, _)| i).collect();
+        let crashed = start + resets.len().saturating_sub(1); // index of the behaviour being replayed when the child died
+        out.write_all(lines[..resets.last().copied().unwrap_or(0)].concat().as_bytes())?;
+        // replay that behaviour alone, flushing after every event, to see which operation does not return
+        let _ = std::fs::remove_file(&tmp);
+        let (_, hung) = run_child(&exe, &["replay-child", input, &tmp, &crashed.to_string(), "one"], &tmp)?;
+        let text = std::fs::read_to_string(&tmp).unwrap_or_default();
+        let mut lines: Vec<String> = text.split_inclusive('\n').filter(|l| l.ends_with('\n')).map(|l| l.to_string()).collect();
+        let done = lines.len().saturating_sub(1); // events of this behaviour that were completed (the first line is the Reset)
+        let ops: Vec<Op> = serde_json::from_str(&behaviours[crashed]).expect("harness: behaviour line");
+        if !lines.is_empty() && done < ops.len() {
+            // the state is taken from the last event that carries one
+            let ev = Event { ev: ops[done].ev.clone(), a: ops[done].a.clone(), outcome: if hung { "timeout".into() } else { "abort".into() }, res: 0, projok: false,
+                             api: serde_json::json!({"has": false}), x: serde_json::json!({"has": false}), ..Default::default() };
+            let mut ev = serde_json::to_value(&ev).unwrap();
+            for l in lines.iter().rev() {
+                if let Ok(prev) = serde_json::from_str::<serde_json::Value>(l) {
+                    let name = prev["ev"].as_str().unwrap_or("");
+                    if prev["projok"] == true && !reads::READ_EVENTS.contains(&name) && name != "Reset" {
+                        ev["post"] = prev["post"].clone();
+                        ev["pos"] = prev["pos"].clone();
+                        break;
+                    }
+                }
+            }
+            lines.push(serde_json::to_string(&ev).unwrap() + "\n");
+        }
+        out.write_all(lines.concat().as_bytes())?;
+        aborts += 1;
+        start = crashed + 1;
+    }
+    let _ = std::fs::remove_file(&tmp);
+    if aborts > 0 {
+        eprintln!("{} behaviour(s) ended with an abort of the code under test", aborts);
+    }
+    Ok(())
+}
+
 /// Replay behaviours (one JSON array of {ev,a} per input line) on fresh stores and log every step.
-fn replay(input: &str, output: &str, style: IdStyle) -> std::io::Result<()> {
+fn replay_child(input: &str, output: &str, style: IdStyle, start: usize, one: bool) -> std::io::Result<()> {
     let inp = std::io::BufReader::new(std::fs::File::open(input)?);
-    let mut out = BufWriter::new(std::fs::File::create(output)?);
+    let mut out = BufWriter::new(std::fs::OpenOptions::new().append(true).create(true).open(output)?);
     let mut nb = 0usize;
     let mut nev = 0usize;
+    let mut index = 0usize;
     for line in inp.lines() {
         let line = line?;
         let line = line.trim();
         if line.is_empty() {
             continue;
         }
+        index += 1;
+        if index <= start || (one && index > start + 1) {
+            continue;
+        }
+        out.flush()?; // (a behaviour is on disk completely before the next one starts)
         let ops: Vec<Op> = serde_json::from_str(line).expect("harness: behaviour line");
         project::reset_sha_table();
         let mut ctx = Ctx { store: new_store(), style, extra: serde_json::json!({"has": false}), dir: None };
@@ -71,6 +168,7 @@ fn replay(input: &str, output: &str, style: IdStyle) -> std::io::Result<()> {
         rcfg["style"] = serde_json::json!(style.0);
         serde_json::to_writer(&mut out, &reset_event(&rcfg))?;
         out.write_all(b"\n")?;
+        out.flush()?;
         nb += 1;
         let mut last_good: Option<(PState, Vec<PPos>)> = None;
         for op in ops.iter() {
@@ -79,6 +177,7 @@ fn replay(input: &str, output: &str, style: IdStyle) -> std::io::Result<()> {
                 let ev = Event { ev: op.ev.clone(), a: op.a.clone(), outcome, res, projok: true, api, x: serde_json::json!({"has": false}), ..Default::default() };
                 serde_json::to_writer(&mut out, &ev)?;
                 out.write_all(b"\n")?;
+                out.flush()?;
                 nev += 1;
                 continue;
             }
@@ -106,6 +205,7 @@ fn replay(input: &str, output: &str, style: IdStyle) -> std::io::Result<()> {
             let ev = Event { ev: op.ev.clone(), a: op.a.clone(), outcome: outcome.clone(), res, projok, post, pos, api, x: ctx.extra.clone() };
             serde_json::to_writer(&mut out, &ev)?;
             out.write_all(b"\n")?;
+            out.flush()?;
             nev += 1;
             if outcome == "panic" || !projok {
                 break; // the store may be inconsistent after a panic: end this behaviour
@@ -133,6 +233,7 @@ fn main() {
     let style = IdStyle(std::env::var("VERIF_IDSTYLE").ok().and_then(|s| s.parse().ok()).unwrap_or(0));
     let r = match args.get(1).map(|s| s.as_str()) {
         Some("replay") => replay(&args[2], &args[3], style),
+        Some("replay-child") => replay_child(&args[2], &args[3], style, args[4].parse().expect("harness: start"), args[5] == "one"),
         Some("load") => {
             // child process of a Load event: exit status carries the outcome
             let code = load::child_main(&args[2], &args[3], style);
